@@ -417,6 +417,7 @@ class WorkerPool:
         self.per_run_timeout = per_run_timeout
         self.env = env
         self.skipped_chunks = 0
+        self.max_deaths = 400
 
     def _run_range(self, a, b):
         while a < b:
@@ -433,10 +434,13 @@ class WorkerPool:
             last_progress = [time.time()]
             done = [False]
 
+            killed = [False]
+
             def watchdog():
                 while not done[0]:
                     time.sleep(0.5)
                     if time.time() - last_progress[0] > self.per_run_timeout:
+                        killed[0] = True
                         try:
                             p.kill()
                         except OSError:
@@ -472,13 +476,25 @@ class WorkerPool:
                 self.results.extend(local)
             if rc == 0:
                 return
+            if len(self.deaths) >= self.max_deaths:
+                return
             with self.lock:
                 self.deaths.append(dict(i=cur[0], sub=cur[1], rc=rc, stderr=''.join(errbuf),
-                                        timeout=(time.time() - last_progress[0] > self.per_run_timeout)))
+                                        timeout=killed[0]))
             a = cur[0] + 1
 
     def _worker(self):
         while True:
+            # a tree on which (nearly) every run dies needs no further exploration: the alarms collected so far are
+            # triaged; the remaining chunks are counted as skipped
+            if len(self.deaths) >= self.max_deaths:
+                with self.lock:
+                    while True:
+                        try:
+                            self.q.get_nowait(); self.skipped_chunks += 1
+                        except queue.Empty:
+                            break
+                return
             try:
                 a, b = self.q.get_nowait()
             except queue.Empty:
